@@ -1,6 +1,37 @@
-"""C10 — decided on the session machine."""
+"""C10 — decided on the session machine, plus logins with unusual token responses."""
+import json
+
+from lib import vf
 from lib.props import _mach
 
 
 def run(ctx):
     _mach.run_modes(ctx, ['conc', 'crash', 'history', 'faults'], ['c10'])
+    # Logins whose token response has no refresh_token and / or no (zero, negative, huge) expires_in - all legal per RFC 6749.
+    # Observation only (the session machine's login event has a fixed response shape): after the login, after requests of every
+    # kind and later, every key in the shared store must carry an expiry that is positive and never later than
+    # creation + maximum lifetime.
+    pre = ctx.path("loginshapes")
+    out, dt = vf.run_driver(["loginshapes", "-out", pre, "-seed", str(ctx.seed), "-tier", ctx.tier])
+    ctx.timings["loginshapes"] = round(dt, 2)
+    n = 0
+    shapes = set()
+    for line in open(pre + ".obs"):
+        d = json.loads(line)
+        n += 1
+        shapes.add((d["no_refresh_token"], d["expires_in"], d["tau"], d["inactivity_ns"] > 0))
+        small = {k: d[k] for k in ("no_refresh_token", "expires_in", "tau", "maxlife_ns", "inactivity_ns", "login")}
+        for st in d["steps"]:
+            for k, ttl in st["ttls"].items():
+                lock = k.endswith(".lock")
+                bound = 10 * 10**9 if lock else d["maxlife_ns"] - st["elapsed_ns"]
+                if ttl == -1:
+                    ctx.violation("c10-immortal-key", "store key without expiry after a login whose token response has this shape", dict(small, step=st["at"], key=k))
+                elif ttl <= 0 or ttl > bound:
+                    ctx.violation("c10-ttl-exceeds-lifetime", "store key whose expiry is not within creation + maximum lifetime (ttl %d ns, bound %d ns)" % (ttl, bound),
+                                  dict(small, step=st["at"], key=k))
+    ctx.evals += n
+    ctx.nontrivial += len(shapes)
+    ctx.extra["login_response_shapes"] = {"logins": n, "distinct_shapes": len(shapes)}
+    ctx.rule += ("; plus %d real logins over {refresh_token present/absent} x {expires_in normal/absent/0/negative/huge} x token lifetime x max lifetime x inactivity, "
+                 "with the TTL of every store key read after the login, after requests of every kind and at later instants" % n)
